@@ -1,25 +1,36 @@
 (* C18 — Title-casing only changes letter case and is idempotent.
    This file pins the statements; it contains nothing but `exact` (and vm_compute Examples).
 
-   The model (Model/TitleCase.v) is make_title_case over abstract tokens; `lower`, `is_lowercase`
-   (char::to_lowercase / is_lowercase, used only on the looked-up word) and the two dictionary
-   methods are universally quantified.  toks_ok n toks is the C02 token invariant: spans in bounds
-   of a text of length n, ordered, disjoint, word-like tokens non-empty. *)
-Require Import Base Tables_titlecase TitleCase TitleCaseProofs.
+   The model (Model/TitleCase.v) is make_title_case over abstract tokens, as the code is since 41fa706
+   (the proper-noun block copies a canonical character only over a case variant of itself, or the
+   straight apostrophe over a curly one).  `lower`, `upper`, `is_lowercase` (char::to_lowercase /
+   to_uppercase / is_lowercase) and the two dictionary methods are universally quantified; what the
+   theorems need to know about them is stated as named laws, each monitored on the real code:
+     lower_ascii_law / upper_ascii_law   the mappings do not depend on the ASCII case of the argument
+     apostrophes_caseless                ' and the three curly apostrophes have no case variant but themselves
+     ascii_variant_closed                a case variant of an ASCII letter is an ASCII letter
+     lowercase_fixed                     to_lowercase fixes is_lowercase characters
+     apostrophes_lower_fixed             to_lowercase fixes the four apostrophes
+     dict_case_insensitive               the two look-ups do not see case / apostrophe style (WordId)
+   case_variant lower upper a c := lower a = lower c /\ upper a = upper c  (what is_case_variant computes).
+   toks_ok n toks is the C02 token invariant: spans in bounds of a text of length n, ordered,
+   disjoint, word-like tokens non-empty.  History/C18History.v: the code before 41fa706 (FC18a/FC18b). *)
+Require Import Base Tables_titlecase TitleCase TitleCaseProofs C18History.
 From Coq Require Import Sorting.Sorted.
 
 (* no panic: for tokens satisfying the C02 invariant, provided the canonical spelling the
    dictionary returns for a word is at least as long as the word (H_canon_len; the harness
-   monitors equality of lengths, on every lookup and over the whole curated dictionary) *)
-Theorem C18_total : forall lower is_lowercase dict_canon dict_meta toks src,
+   monitors equality of lengths, on every lookup and over the whole curated dictionary).
+   correct_caps[idx] is still indexed before the guard of the copy, so the premise is still needed *)
+Theorem C18_total : forall lower upper is_lowercase dict_canon dict_meta toks src,
   toks_ok (length src) toks ->
   (forall w cc, dict_canon w = Some cc -> length w <= length cc) ->
-  exists out, make_title_case lower is_lowercase dict_canon dict_meta toks src = Ok out.
+  exists out, make_title_case lower upper is_lowercase dict_canon dict_meta toks src = Ok out.
 Proof. exact mtc_total. Qed.
-Check C18_total : forall lower is_lowercase dict_canon dict_meta toks src,
+Check C18_total : forall lower upper is_lowercase dict_canon dict_meta toks src,
   toks_ok (length src) toks ->
   (forall w cc, dict_canon w = Some cc -> length w <= length cc) ->
-  exists out, make_title_case lower is_lowercase dict_canon dict_meta toks src = Ok out.
+  exists out, make_title_case lower upper is_lowercase dict_canon dict_meta toks src = Ok out.
 Print Assumptions C18_total.
 
 (* the same with H_canon_len derived from how the dictionary finds a word: the canonical spelling
@@ -27,92 +38,130 @@ Print Assumptions C18_total.
    WordId) as w, each of its characters lower-cases to exactly one character, and to_lowercase never
    yields the empty string — the three facts the harness monitors (every look-up; every entry of the
    curated dictionary; all code points) *)
-Theorem C18_total_word_id : forall lower is_lowercase dict_canon dict_meta toks src,
+Theorem C18_total_word_id : forall lower upper is_lowercase dict_canon dict_meta toks src,
   toks_ok (length src) toks ->
   (forall c, lower c <> []) ->
   (forall w cc, dict_canon w = Some cc ->
                 fold_word lower cc = fold_word lower w /\
                 Forall (fun c => length (lower (normalize_char c)) = 1) cc) ->
-  exists out, make_title_case lower is_lowercase dict_canon dict_meta toks src = Ok out.
+  exists out, make_title_case lower upper is_lowercase dict_canon dict_meta toks src = Ok out.
 Proof. exact mtc_total_word_id. Qed.
-Check C18_total_word_id : forall lower is_lowercase dict_canon dict_meta toks src,
+Check C18_total_word_id : forall lower upper is_lowercase dict_canon dict_meta toks src,
   toks_ok (length src) toks ->
   (forall c, lower c <> []) ->
   (forall w cc, dict_canon w = Some cc ->
                 fold_word lower cc = fold_word lower w /\
                 Forall (fun c => length (lower (normalize_char c)) = 1) cc) ->
-  exists out, make_title_case lower is_lowercase dict_canon dict_meta toks src = Ok out.
+  exists out, make_title_case lower upper is_lowercase dict_canon dict_meta toks src = Ok out.
 Print Assumptions C18_total_word_id.
 
 (* the output has the length of the hull of the tokens — for ANY token list: text outside the hull
    is dropped (Markdown: "A\n" gives "A") and an empty token list gives the empty string *)
-Theorem C18_length : forall lower is_lowercase dict_canon dict_meta toks src out,
-  make_title_case lower is_lowercase dict_canon dict_meta toks src = Ok out ->
+Theorem C18_length : forall lower upper is_lowercase dict_canon dict_meta toks src out,
+  make_title_case lower upper is_lowercase dict_canon dict_meta toks src = Ok out ->
   length out = hull_end toks - hull_start toks.
 Proof. exact mtc_length. Qed.
-Check C18_length : forall lower is_lowercase dict_canon dict_meta toks src out,
-  make_title_case lower is_lowercase dict_canon dict_meta toks src = Ok out ->
+Check C18_length : forall lower upper is_lowercase dict_canon dict_meta toks src out,
+  make_title_case lower upper is_lowercase dict_canon dict_meta toks src = Ok out ->
   length out = hull_end toks - hull_start toks.
 Print Assumptions C18_length.
 
 (* hence: when the tokens tile the text (PlainEnglish), input and output have the same length *)
-Theorem C18_length_tiling : forall lower is_lowercase dict_canon dict_meta toks src out,
-  make_title_case lower is_lowercase dict_canon dict_meta toks src = Ok out ->
+Theorem C18_length_tiling : forall lower upper is_lowercase dict_canon dict_meta toks src out,
+  make_title_case lower upper is_lowercase dict_canon dict_meta toks src = Ok out ->
   hull_start toks = 0 -> hull_end toks = length src ->
   length out = length src.
 Proof. exact mtc_length_tiling. Qed.
-Check C18_length_tiling : forall lower is_lowercase dict_canon dict_meta toks src out,
-  make_title_case lower is_lowercase dict_canon dict_meta toks src = Ok out ->
+Check C18_length_tiling : forall lower upper is_lowercase dict_canon dict_meta toks src out,
+  make_title_case lower upper is_lowercase dict_canon dict_meta toks src = Ok out ->
   hull_start toks = 0 -> hull_end toks = length src ->
   length out = length src.
 Print Assumptions C18_length_tiling.
 
-(* case only — for ANY token list: output character k is the source character at hull_start + k up
-   to ASCII case (case_img a c: c = a, to_ascii_uppercase a or to_ascii_lowercase a), or — inside a
-   word-like token w for which the proper-noun block found a canonical spelling cc — the character
-   of cc at the same offset into w, up to ASCII case.  (first_start = start of the first token, the
-   anchor of the code's index arithmetic; equal to hull_start under the token invariant.) *)
-Theorem C18_case_only : forall lower is_lowercase dict_canon dict_meta toks src out,
-  make_title_case lower is_lowercase dict_canon dict_meta toks src = Ok out ->
+(* CASE ONLY, at the strength of the property text, for ANY token list (overlapping, unordered, ...):
+   output character k is a case variant of the source character at hull_start + k (same to_lowercase
+   and same to_uppercase mapping), or it is the straight apostrophe standing for a curly one inside a
+   word-like token for which the proper-noun block found a canonical spelling that has the straight
+   apostrophe at that offset.  No exception is left: before 41fa706 a KELVIN SIGN became K here.
+   (first_start = start of the first token, the anchor of the code's index arithmetic; equal to
+   hull_start under the token invariant.) *)
+Theorem C18_case_only : forall lower upper is_lowercase dict_canon dict_meta,
+  lower_ascii_law lower -> upper_ascii_law upper -> apostrophes_caseless lower upper ->
+  forall toks src out,
+  make_title_case lower upper is_lowercase dict_canon dict_meta toks src = Ok out ->
   forall k c, nth_error out k = Some c ->
-    (exists a, nth_error src (hull_start toks + k) = Some a /\ case_img a c) \/
-    (exists w cc b,
-        In w toks /\ tok_word_like w = true /\ canon_for dict_canon w src = Ok (Some cc) /\
-        tstart w <= first_start toks + k < tend w /\
-        nth_error cc (first_start toks + k - tstart w) = Some b /\ case_img b c).
+    exists a, nth_error src (hull_start toks + k) = Some a /\
+      (case_variant lower upper a c \/
+       (In a tc_canonical_apostrophe_from /\ c = tc_canonical_apostrophe_to /\
+        exists w cc,
+          In w toks /\ tok_word_like w = true /\ canon_for dict_canon w src = Ok (Some cc) /\
+          tstart w <= first_start toks + k < tend w /\
+          nth_error cc (first_start toks + k - tstart w) = Some tc_canonical_apostrophe_to)).
 Proof. exact mtc_case_only. Qed.
-Check C18_case_only : forall lower is_lowercase dict_canon dict_meta toks src out,
-  make_title_case lower is_lowercase dict_canon dict_meta toks src = Ok out ->
+Check C18_case_only : forall lower upper is_lowercase dict_canon dict_meta,
+  lower_ascii_law lower -> upper_ascii_law upper -> apostrophes_caseless lower upper ->
+  forall toks src out,
+  make_title_case lower upper is_lowercase dict_canon dict_meta toks src = Ok out ->
   forall k c, nth_error out k = Some c ->
-    (exists a, nth_error src (hull_start toks + k) = Some a /\ case_img a c) \/
-    (exists w cc b,
-        In w toks /\ tok_word_like w = true /\ canon_for dict_canon w src = Ok (Some cc) /\
-        tstart w <= first_start toks + k < tend w /\
-        nth_error cc (first_start toks + k - tstart w) = Some b /\ case_img b c).
+    exists a, nth_error src (hull_start toks + k) = Some a /\
+      (case_variant lower upper a c \/
+       (In a tc_canonical_apostrophe_from /\ c = tc_canonical_apostrophe_to /\
+        exists w cc,
+          In w toks /\ tok_word_like w = true /\ canon_for dict_canon w src = Ok (Some cc) /\
+          tstart w <= first_start toks + k < tend w /\
+          nth_error cc (first_start toks + k - tstart w) = Some tc_canonical_apostrophe_to)).
 Print Assumptions C18_case_only.
 
-(* the first word-like token starts with to_ascii_uppercase of its first character (of the first
-   character of its canonical spelling when the proper-noun block replaced it) *)
-Theorem C18_first_upper : forall lower is_lowercase dict_canon dict_meta toks src out w0 rest,
+(* FIRST UPPER, the clause of the property text: where the first word-like token starts, the output
+   never has an ASCII lower-case letter, and it has an ASCII upper-case letter whenever the token
+   starts with an ASCII letter (the guarded copy can only put a case variant of that letter there) *)
+Theorem C18_first_upper : forall lower upper is_lowercase dict_canon dict_meta toks src out w0 rest,
+  ascii_variant_closed lower upper ->
   toks_ok (length src) toks ->
-  make_title_case lower is_lowercase dict_canon dict_meta toks src = Ok out ->
+  make_title_case lower upper is_lowercase dict_canon dict_meta toks src = Ok out ->
   filter tok_word_like toks = w0 :: rest ->
-  exists oc b,
-    canon_for dict_canon w0 src = Ok oc /\
-    match oc with Some cc => nth_error cc 0 | None => nth_error src (tstart w0) end = Some b /\
-    nth_error out (tstart w0 - first_start toks) = Some (ascii_upper b).
+  exists a c,
+    nth_error src (tstart w0) = Some a /\ nth_error out (tstart w0 - first_start toks) = Some c /\
+    is_ascii_lower c = false /\ (is_ascii_alpha a = true -> is_ascii_upper c = true).
 Proof. exact mtc_first_upper. Qed.
-Check C18_first_upper : forall lower is_lowercase dict_canon dict_meta toks src out w0 rest,
+Check C18_first_upper : forall lower upper is_lowercase dict_canon dict_meta toks src out w0 rest,
+  ascii_variant_closed lower upper ->
   toks_ok (length src) toks ->
-  make_title_case lower is_lowercase dict_canon dict_meta toks src = Ok out ->
+  make_title_case lower upper is_lowercase dict_canon dict_meta toks src = Ok out ->
   filter tok_word_like toks = w0 :: rest ->
-  exists oc b,
-    canon_for dict_canon w0 src = Ok oc /\
-    match oc with Some cc => nth_error cc 0 | None => nth_error src (tstart w0) end = Some b /\
-    nth_error out (tstart w0 - first_start toks) = Some (ascii_upper b).
+  exists a c,
+    nth_error src (tstart w0) = Some a /\ nth_error out (tstart w0 - first_start toks) = Some c /\
+    is_ascii_lower c = false /\ (is_ascii_alpha a = true -> is_ascii_upper c = true).
 Print Assumptions C18_first_upper.
 
-(* ... and to_ascii_uppercase of an ASCII letter is an ASCII upper-case letter, of anything else the
+(* ... exactly: to_ascii_uppercase of the token's first character, or of the first character of the
+   canonical spelling when the guarded copy took it (canon_pick) *)
+Theorem C18_first_upper_exact : forall lower upper is_lowercase dict_canon dict_meta toks src out w0 rest,
+  toks_ok (length src) toks ->
+  make_title_case lower upper is_lowercase dict_canon dict_meta toks src = Ok out ->
+  filter tok_word_like toks = w0 :: rest ->
+  exists oc a b,
+    canon_for dict_canon w0 src = Ok oc /\ nth_error src (tstart w0) = Some a /\
+    match oc with
+    | Some cc => exists b0, nth_error cc 0 = Some b0 /\ b = canon_pick lower upper a b0
+    | None => b = a
+    end /\
+    nth_error out (tstart w0 - first_start toks) = Some (ascii_upper b).
+Proof. exact mtc_first_upper_exact. Qed.
+Check C18_first_upper_exact : forall lower upper is_lowercase dict_canon dict_meta toks src out w0 rest,
+  toks_ok (length src) toks ->
+  make_title_case lower upper is_lowercase dict_canon dict_meta toks src = Ok out ->
+  filter tok_word_like toks = w0 :: rest ->
+  exists oc a b,
+    canon_for dict_canon w0 src = Ok oc /\ nth_error src (tstart w0) = Some a /\
+    match oc with
+    | Some cc => exists b0, nth_error cc 0 = Some b0 /\ b = canon_pick lower upper a b0
+    | None => b = a
+    end /\
+    nth_error out (tstart w0 - first_start toks) = Some (ascii_upper b).
+Print Assumptions C18_first_upper_exact.
+
+(* to_ascii_uppercase of an ASCII letter is an ASCII upper-case letter, of anything else the
    character itself; it is never an ASCII lower-case letter *)
 Theorem C18_ascii_upper_spec : forall c,
   is_ascii_lower (ascii_upper c) = false /\
@@ -127,170 +176,135 @@ Print Assumptions C18_ascii_upper_spec.
 
 (* the tie to the source (table regenerated from title_case.rs / token_kind.rs / char_string.rs on
    every run): characters of the output are only ever written through to_ascii_uppercase /
-   to_ascii_lowercase (one char to one char) or copied from the canonical spelling; the first and the
-   last word-like token are forced upper; the word-like kinds and the special conjunctions are the
-   ones the model and the harness use *)
-Theorem C18_source_shape :
+   to_ascii_lowercase (one char to one char) or by the GUARDED copy of the canonical spelling
+   (is_case_variant = same to_lowercase and same to_uppercase; straight over curly apostrophe), the
+   unguarded copy is gone; the first and the last word-like token are forced upper; the word-like
+   kinds and the special conjunctions are the ones the model and the harness use *)
+Theorem C18_source_shape : 
   tc_uses_unicode_case_on_output = false /\ tc_ascii_upper_sites = 1 /\ tc_ascii_lower_sites = 1 /\
-  tc_output_index_writes = 2 /\ tc_canonical_overwrite_present = true /\ tc_first_last_forced = true /\
+  tc_output_index_writes = 2 /\
+  tc_canonical_copy_guarded = true /\ tc_canonical_copy_unguarded_present = false /\
+  tc_case_variant_is_lower_and_upper = true /\
+  tc_canonical_apostrophe_to = 39%N /\ tc_canonical_apostrophe_from = [8217; 8216; 65287]%N /\
+  tc_first_last_forced = true /\
   tc_token_kind_count = 12 /\ tc_word_like_codes = [0; 6; 8; 2; 3] /\
   tc_special_conjunctions = [[97; 110; 100]; [98; 117; 116]; [102; 111; 114]; [111; 114]; [110; 111; 114]]%N /\
   tc_short_preposition_max = 4 /\
   tc_normalize_table = [(8217, 39); (8216, 39); (65287, 39)]%N.
 Proof. exact tc_source_shape. Qed.
-Check C18_source_shape :
+Check C18_source_shape : 
   tc_uses_unicode_case_on_output = false /\ tc_ascii_upper_sites = 1 /\ tc_ascii_lower_sites = 1 /\
-  tc_output_index_writes = 2 /\ tc_canonical_overwrite_present = true /\ tc_first_last_forced = true /\
+  tc_output_index_writes = 2 /\
+  tc_canonical_copy_guarded = true /\ tc_canonical_copy_unguarded_present = false /\
+  tc_case_variant_is_lower_and_upper = true /\
+  tc_canonical_apostrophe_to = 39%N /\ tc_canonical_apostrophe_from = [8217; 8216; 65287]%N /\
+  tc_first_last_forced = true /\
   tc_token_kind_count = 12 /\ tc_word_like_codes = [0; 6; 8; 2; 3] /\
   tc_special_conjunctions = [[97; 110; 100]; [98; 117; 116]; [102; 111; 114]; [111; 114]; [110; 111; 114]]%N /\
   tc_short_preposition_max = 4 /\
   tc_normalize_table = [(8217, 39); (8216, 39); (65287, 39)]%N.
 Print Assumptions C18_source_shape.
 
-(* idempotence, PARTIAL: a second pass changes nothing PROVIDED (H_case_stable, monitored, not
-   proved) re-tokenising the output yields the same token list — the theorem reuses `toks` — and, for
-   each word-like token, the proper-noun look-up and should_capitalize_token answer on the output's
-   text as they did on the input's.  Further premises: C02 token invariant; the tokens tile the text
-   (PlainEnglish; otherwise the output is shorter than the input and cannot carry the same spans).
-   Missing for the full property: the lexer's case-stability (Lexer.v is not part of this model). *)
-Theorem C18_idempotent_partial : forall lower is_lowercase dict_canon dict_meta toks src out,
+(* IDEMPOTENCE of make_title_case: a second pass over the same token list returns its input
+   unchanged.  Premises: the C02 token invariant; the tokens tile the text (PlainEnglish; otherwise
+   the output is shorter than the input and cannot carry the same spans); the laws above.  The
+   former premise H_case_stable about the dictionary's answers on the output is gone — they follow
+   from C18_case_only and dict_case_insensitive.
+   `_partial`: what is MISSING for the property on make_title_case_str is that re-lexing the output
+   yields the same token list (Lexer.v is not part of this model); the theorem reuses `toks`.  The
+   harness counts how often the real lexer re-tokenises differently (H_case_stable:violated) and
+   evaluates idempotence of make_title_case_str itself as the oracle *)
+Theorem C18_idempotent_partial : forall lower upper is_lowercase dict_canon dict_meta,
+  lower_ascii_law lower -> upper_ascii_law upper ->
+  forall toks src out,
+  apostrophes_caseless lower upper ->
+  lowercase_fixed lower is_lowercase -> apostrophes_lower_fixed lower ->
+  dict_case_insensitive lower upper is_lowercase dict_canon dict_meta ->
   toks_ok (length src) toks ->
   hull_start toks = 0 -> hull_end toks = length src ->
-  make_title_case lower is_lowercase dict_canon dict_meta toks src = Ok out ->
-  (forall w, In w toks -> tok_word_like w = true ->
-     canon_for dict_canon w out = canon_for dict_canon w src /\
-     should_capitalize_token lower is_lowercase dict_meta w out
-     = should_capitalize_token lower is_lowercase dict_meta w src) ->
-  make_title_case lower is_lowercase dict_canon dict_meta toks out = Ok out.
-Proof. exact mtc_idempotent. Qed.
-Check C18_idempotent_partial : forall lower is_lowercase dict_canon dict_meta toks src out,
+  make_title_case lower upper is_lowercase dict_canon dict_meta toks src = Ok out ->
+  make_title_case lower upper is_lowercase dict_canon dict_meta toks out = Ok out.
+Proof. exact mtc_idempotent_tokens. Qed.
+Check C18_idempotent_partial : forall lower upper is_lowercase dict_canon dict_meta,
+  lower_ascii_law lower -> upper_ascii_law upper ->
+  forall toks src out,
+  apostrophes_caseless lower upper ->
+  lowercase_fixed lower is_lowercase -> apostrophes_lower_fixed lower ->
+  dict_case_insensitive lower upper is_lowercase dict_canon dict_meta ->
   toks_ok (length src) toks ->
   hull_start toks = 0 -> hull_end toks = length src ->
-  make_title_case lower is_lowercase dict_canon dict_meta toks src = Ok out ->
-  (forall w, In w toks -> tok_word_like w = true ->
-     canon_for dict_canon w out = canon_for dict_canon w src /\
-     should_capitalize_token lower is_lowercase dict_meta w out
-     = should_capitalize_token lower is_lowercase dict_meta w src) ->
-  make_title_case lower is_lowercase dict_canon dict_meta toks out = Ok out.
+  make_title_case lower upper is_lowercase dict_canon dict_meta toks src = Ok out ->
+  make_title_case lower upper is_lowercase dict_canon dict_meta toks out = Ok out.
 Print Assumptions C18_idempotent_partial.
 
-(* the decision depends on the word only through case-insensitive data: when to_lowercase ignores
-   ASCII case (lower_ascii_law), is the identity on is_lowercase characters (lowercase_fixed), and
-   the dictionary's canonical-spelling look-up ignores ASCII case (dict_ascii_ci) — all three
-   monitored — the stability premise is only needed for the tokens whose text the proper-noun block
-   replaced by a canonical spelling *)
-Theorem C18_idempotent_case_insensitive_partial : forall lower is_lowercase dict_canon dict_meta toks src out,
-  toks_ok (length src) toks ->
-  hull_start toks = 0 -> hull_end toks = length src ->
-  lower_ascii_law lower -> lowercase_fixed lower is_lowercase -> dict_ascii_ci dict_canon ->
-  make_title_case lower is_lowercase dict_canon dict_meta toks src = Ok out ->
-  (forall w cc, In w toks -> tok_word_like w = true -> canon_for dict_canon w src = Ok (Some cc) ->
-     canon_for dict_canon w out = Ok (Some cc) /\
-     should_capitalize_token lower is_lowercase dict_meta w out
-     = should_capitalize_token lower is_lowercase dict_meta w src) ->
-  make_title_case lower is_lowercase dict_canon dict_meta toks out = Ok out.
-Proof. exact mtc_idempotent_ci. Qed.
-Check C18_idempotent_case_insensitive_partial : forall lower is_lowercase dict_canon dict_meta toks src out,
-  toks_ok (length src) toks ->
-  hull_start toks = 0 -> hull_end toks = length src ->
-  lower_ascii_law lower -> lowercase_fixed lower is_lowercase -> dict_ascii_ci dict_canon ->
-  make_title_case lower is_lowercase dict_canon dict_meta toks src = Ok out ->
-  (forall w cc, In w toks -> tok_word_like w = true -> canon_for dict_canon w src = Ok (Some cc) ->
-     canon_for dict_canon w out = Ok (Some cc) /\
-     should_capitalize_token lower is_lowercase dict_meta w out
-     = should_capitalize_token lower is_lowercase dict_meta w src) ->
-  make_title_case lower is_lowercase dict_canon dict_meta toks out = Ok out.
-Print Assumptions C18_idempotent_case_insensitive_partial.
-
-(* case only at the strength of the property text, OUTSIDE the known class: for every relation S
-   between an input and an output character that contains "ASCII case image" — S is what the property
-   allows — if no canonical spelling that the proper-noun block copies takes a source character out of
-   S (after the ASCII case write that may follow), every output character is S-related to the source
-   character at the same position.  (~ KnownClass = that premise; the harness instantiates S with
-   "lower/upper-case mapping, or curly apostrophe -> ' inside a proper noun".) *)
-Theorem C18_case_only_outside_known_class :
-  forall lower is_lowercase dict_canon dict_meta (S : char -> char -> Prop) toks src out,
-  (forall a c, case_img a c -> S a c) ->
-  toks_ok (length src) toks ->
-  make_title_case lower is_lowercase dict_canon dict_meta toks src = Ok out ->
-  (forall w cc i a b c,
-      In w toks -> tok_word_like w = true -> canon_for dict_canon w src = Ok (Some cc) ->
-      tstart w + i < tend w ->
-      nth_error src (tstart w + i) = Some a -> nth_error cc i = Some b -> case_img b c -> S a c) ->
-  forall k c, nth_error out k = Some c ->
-    exists a, nth_error src (hull_start toks + k) = Some a /\ S a c.
-Proof. exact mtc_case_only_rel. Qed.
-Check C18_case_only_outside_known_class :
-  forall lower is_lowercase dict_canon dict_meta (S : char -> char -> Prop) toks src out,
-  (forall a c, case_img a c -> S a c) ->
-  toks_ok (length src) toks ->
-  make_title_case lower is_lowercase dict_canon dict_meta toks src = Ok out ->
-  (forall w cc i a b c,
-      In w toks -> tok_word_like w = true -> canon_for dict_canon w src = Ok (Some cc) ->
-      tstart w + i < tend w ->
-      nth_error src (tstart w + i) = Some a -> nth_error cc i = Some b -> case_img b c -> S a c) ->
-  forall k c, nth_error out k = Some c ->
-    exists a, nth_error src (hull_start toks + k) = Some a /\ S a c.
-Print Assumptions C18_case_only_outside_known_class.
-
-(* KNOWN CLASS (findings FC18a, FC18b), witness "b the.Kelvin" written with U+212A KELVIN SIGN; the
-   tables are the facts the real implementation dumps for this input and for its output
-   (corpus/C18/kelvin.json replays both on the implementation):
-   - the proper-noun block copies the canonical spelling "kelvin" over "Kelvin" (same WordId: both
-     lower-case to "kelvin"), the first-letter write makes it 'K': U+212A has become U+004B, which is
-     not a case image of U+212A;
-   - the output "B the.Kelvin" is now all-ASCII around the dot and re-lexes as Word Space
-     Hostname("the.Kelvin"); the second pass upper-cases the hostname's first letter: "B The.Kelvin". *)
-Theorem C18_idempotent_refuted :
-  exists chars canon meta toks toks' src out out',
-    run_title_case chars canon meta toks src = Ok out /\
-    run_title_case chars canon meta toks' out = Ok out' /\ out' <> out.
-Proof. exact mtc_idempotent_refuted. Qed.
-Check C18_idempotent_refuted :
-  exists chars canon meta toks toks' src out out',
-    run_title_case chars canon meta toks src = Ok out /\
-    run_title_case chars canon meta toks' out = Ok out' /\ out' <> out.
-Print Assumptions C18_idempotent_refuted.
-
-Theorem C18_case_only_strict_refuted :
-  exists chars canon meta toks src out k a c,
-    run_title_case chars canon meta toks src = Ok out /\
-    nth_error src k = Some a /\ nth_error out k = Some c /\ ~ case_img a c.
-Proof. exact mtc_case_only_strict_refuted. Qed.
-Check C18_case_only_strict_refuted :
-  exists chars canon meta toks src out k a c,
-    run_title_case chars canon meta toks src = Ok out /\
-    nth_error src k = Some a /\ nth_error out k = Some c /\ ~ case_img a c.
-Print Assumptions C18_case_only_strict_refuted.
+(* the whole property text on a token list, in one statement (char_rel = the disjunction of
+   C18_case_only): the conversion succeeds, keeps the length, changes characters only as allowed,
+   starts the first word-like token upper-case, and a second pass over the same tokens is the identity *)
+Theorem C18_title_case_on_tokens : forall lower upper is_lowercase dict_canon dict_meta toks src,
+  lower_ascii_law lower -> upper_ascii_law upper -> apostrophes_caseless lower upper ->
+  ascii_variant_closed lower upper -> lowercase_fixed lower is_lowercase -> apostrophes_lower_fixed lower ->
+  dict_case_insensitive lower upper is_lowercase dict_canon dict_meta ->
+  (forall w cc, dict_canon w = Some cc -> length w <= length cc) ->
+  toks_ok (length src) toks -> hull_start toks = 0 -> hull_end toks = length src ->
+  exists out,
+    make_title_case lower upper is_lowercase dict_canon dict_meta toks src = Ok out /\
+    length out = length src /\
+    (forall k c, nth_error out k = Some c ->
+       exists a, nth_error src k = Some a /\ char_rel lower upper dict_canon toks src k a c) /\
+    (forall w0 rest, filter tok_word_like toks = w0 :: rest ->
+       exists a c, nth_error src (tstart w0) = Some a /\ nth_error out (tstart w0) = Some c /\
+                   is_ascii_lower c = false /\ (is_ascii_alpha a = true -> is_ascii_upper c = true)) /\
+    make_title_case lower upper is_lowercase dict_canon dict_meta toks out = Ok out.
+Proof. exact mtc_property. Qed.
+Check C18_title_case_on_tokens : forall lower upper is_lowercase dict_canon dict_meta toks src,
+  lower_ascii_law lower -> upper_ascii_law upper -> apostrophes_caseless lower upper ->
+  ascii_variant_closed lower upper -> lowercase_fixed lower is_lowercase -> apostrophes_lower_fixed lower ->
+  dict_case_insensitive lower upper is_lowercase dict_canon dict_meta ->
+  (forall w cc, dict_canon w = Some cc -> length w <= length cc) ->
+  toks_ok (length src) toks -> hull_start toks = 0 -> hull_end toks = length src ->
+  exists out,
+    make_title_case lower upper is_lowercase dict_canon dict_meta toks src = Ok out /\
+    length out = length src /\
+    (forall k c, nth_error out k = Some c ->
+       exists a, nth_error src k = Some a /\ char_rel lower upper dict_canon toks src k a c) /\
+    (forall w0 rest, filter tok_word_like toks = w0 :: rest ->
+       exists a c, nth_error src (tstart w0) = Some a /\ nth_error out (tstart w0) = Some c /\
+                   is_ascii_lower c = false /\ (is_ascii_alpha a = true -> is_ascii_upper c = true)) /\
+    make_title_case lower upper is_lowercase dict_canon dict_meta toks out = Ok out.
+Print Assumptions C18_title_case_on_tokens.
 
 (* ---------- non-vacuity ---------- *)
-(* "the wordpress of a" -> "The WordPress of A": the hypotheses of every theorem above hold on it
-   (token invariant, tiling, H_canon_len, the stability premise), first/last/determiner/preposition/
+(* "the wordpress of a" -> "The WordPress of A" over an example dictionary that finds words by their
+   folded form: EVERY hypothesis of every theorem above holds on it (the seven laws for all
+   characters / words, token invariant, tiling, H_canon_len), first/last/determiner/preposition/
    proper-noun paths are all exercised, and the second pass is the identity *)
 Example C18_nonvacuous :
+  lower_ascii_law ex_lower /\ upper_ascii_law ex_upper /\ apostrophes_caseless ex_lower ex_upper /\
+  ascii_variant_closed ex_lower ex_upper /\ lowercase_fixed ex_lower ex_islower /\
+  apostrophes_lower_fixed ex_lower /\ dict_case_insensitive ex_lower ex_upper ex_islower ex_canon ex_meta /\
   toks_ok (length ex_src) ex_toks /\ hull_start ex_toks = 0 /\ hull_end ex_toks = length ex_src /\
   (forall w cc, ex_canon w = Some cc -> length w <= length cc) /\
-  make_title_case ex_lower ex_islower ex_canon ex_meta ex_toks ex_src = Ok ex_out /\
-  Forall (fun w => canon_for ex_canon w ex_out = canon_for ex_canon w ex_src /\
-                   should_capitalize_token ex_lower ex_islower ex_meta w ex_out
-                   = should_capitalize_token ex_lower ex_islower ex_meta w ex_src) ex_toks /\
-  make_title_case ex_lower ex_islower ex_canon ex_meta ex_toks ex_out = Ok ex_out.
+  make_title_case ex_lower ex_upper ex_islower ex_canon ex_meta ex_toks ex_src = Ok ex_out /\
+  make_title_case ex_lower ex_upper ex_islower ex_canon ex_meta ex_toks ex_out = Ok ex_out /\
+  ex_out <> ex_src.
 Proof.
+  split; [exact ex_lower_ascii_law|]. split; [exact ex_upper_ascii_law|]. split; [exact ex_apostrophes_caseless|].
+  split; [exact ex_ascii_variant_closed|]. split; [exact ex_lowercase_fixed|].
+  split; [exact ex_apostrophes_lower_fixed|]. split; [exact ex_dict_case_insensitive|].
   split; [exact ex_toks_ok|]. split; [reflexivity|]. split; [reflexivity|]. split; [exact ex_canon_len|].
-  split; [vm_compute; reflexivity|]. split; [repeat constructor; vm_compute; reflexivity|].
-  vm_compute; reflexivity.
+  split; [vm_compute; reflexivity|]. split; [vm_compute; reflexivity|]. discriminate.
 Qed.
 
 (* H_canon_len is needed: a proper-noun token of 3 characters ("i" + U+0307 + "x") whose canonical
    spelling has 2 ("İx" — same lower-cased form, the only Unicode character whose to_lowercase is two
-   characters) makes `correct_caps[idx]` panic; the real function panics on the same input with a
-   hand-made dictionary (corpus/C18/edge.json, synthetic stream) — the curated dictionary has no such
-   entry (swept on every run) *)
+   characters) makes `correct_caps[idx]` panic (the index is evaluated before the guard); the real
+   function panics on the same input with a hand-made dictionary (corpus/C18/edge.json, synthetic
+   stream) — the curated dictionary has no such entry (swept on every run) *)
 Example C18_canon_len_needed :
   let src := [105; 775; 120]%N in
   let toks := [mktok (mkspan 0 3) (KWord (Some (mkmeta true false false)))] in
   toks_ok (length src) toks /\
-  make_title_case ex_lower ex_islower (fun _ => Some [304; 120]%N) (fun _ => None) toks src = Panic PIndex.
+  make_title_case ex_lower ex_upper ex_islower (fun _ => Some [304; 120]%N) (fun _ => None) toks src = Panic PIndex.
 Proof.
   cbv zeta. split; [|vm_compute; reflexivity].
   split; [repeat constructor|]. repeat constructor; cbn; lia.
@@ -299,14 +313,37 @@ Qed.
 (* text outside the hull of the tokens is dropped (Markdown front-end: "A\n" -> "A"); an empty token
    list gives the empty string whatever the text *)
 Example C18_hull_only :
-  make_title_case ex_lower ex_islower ex_canon ex_meta [mktok (mkspan 0 1) (KWord None)] [97; 10]%N = Ok [65]%N /\
-  make_title_case ex_lower ex_islower ex_canon ex_meta [] [97; 10]%N = Ok [].
+  make_title_case ex_lower ex_upper ex_islower ex_canon ex_meta [mktok (mkspan 0 1) (KWord None)] [97; 10]%N = Ok [65]%N /\
+  make_title_case ex_lower ex_upper ex_islower ex_canon ex_meta [] [97; 10]%N = Ok [].
 Proof. split; vm_compute; reflexivity. Qed.
 
-(* the witness of the known class, spelled out *)
-Example C18_known_class_witness :
-  run_title_case kw_chars kw_canon kw_meta kw_toks1 kw_src = Ok kw_out /\
-  run_title_case kw_chars kw_canon kw_meta kw_toks2 kw_out = Ok kw_out2 /\
-  kw_out2 <> kw_out /\
-  nth_error kw_src 6 = Some 8490%N /\ nth_error kw_out 6 = Some 75%N /\ ~ case_img 8490%N 75%N.
-Proof. exact kelvin_witness. Qed.
+(* the guard at work: a curly apostrophe is replaced by the canonical straight one, a character that
+   is no case variant of the canonical character is left alone ("o’Xrien" with canonical "O'Brien":
+   O and ' are taken, X stays) *)
+Example C18_guarded_copy :
+  let canon := fun _ : text => Some [79; 39; 66; 114; 105; 101; 110]%N in
+  make_title_case ex_lower ex_upper ex_islower canon (fun _ => None)
+                  [mktok (mkspan 0 7) (KWord (Some (mkmeta true false false)))]
+                  [111; 8217; 88; 114; 105; 101; 110]%N
+  = Ok [79; 39; 88; 114; 105; 101; 110]%N.
+Proof. vm_compute. reflexivity. Qed.
+
+(* REGRESSION, former known class FC18a/FC18b ("b the.Kelvin" with U+212A, facts dumped from the real
+   code): the KELVIN SIGN is left alone and a second pass is the identity *)
+Example C18_kelvin_regression :
+  run_title_case kw_chars kw_canon kw_meta kw_toks kw_src = Ok kw_out /\
+  run_title_case kw_chars kw_canon kw_meta kw_toks kw_out = Ok kw_out /\
+  run_missing_keys kw_chars kw_canon kw_meta kw_toks kw_src = false /\
+  run_missing_keys kw_chars kw_canon kw_meta kw_toks kw_out = false /\
+  nth_error kw_src 6 = Some 8490%N /\ nth_error kw_out 6 = Some 8490%N.
+Proof. exact kelvin_regression. Qed.
+
+(* HISTORY (History/C18History.v, about make_title_case_old = the code BEFORE 41fa706, not the
+   current tree): on the same input the old code turned U+212A into U+004B, which is no case variant
+   of it, and the result re-lexed to tokens on which a second pass changed it again *)
+Example C18_old_refuted :
+  run_title_case_old kw_chars_old kw_canon kw_meta kw_toks kw_src = Ok kw_out_old /\
+  run_title_case_old kw_chars_old kw_canon kw_meta kw_toks2_old kw_out_old = Ok kw_out2_old /\
+  kw_out2_old <> kw_out_old /\
+  nth_error kw_src 6 = Some 8490%N /\ nth_error kw_out_old 6 = Some 75%N.
+Proof. destruct kelvin_old_refuted as (H1 & H2 & H3 & H4 & H5 & _). repeat split; assumption. Qed.
